@@ -64,6 +64,8 @@ def _walk(stmts, watched, out, prefix=""):
                 if isinstance(n, ast.Call) and _callee(n) in watched:
                     raise StepError("watched call %s inside a nested definition" % _callee(n))
         else:
+            if isinstance(s, ast.AugAssign) and isinstance(s.target, ast.Attribute) and s.target.attr in watched:
+                out.append(prefix + ast.unparse(s))
             for c in _calls_in(s, watched):
                 out.append(prefix + c)
 
